@@ -278,6 +278,9 @@ func LoadPackage(dir string) (*PackageInfo, error) {
 
 		versionInfo, err := loadPackageVersion(vdir)
 		if err != nil {
+			// Keep what could be read of the failing version in the tree: watch mode watches
+			// its directory so that repairing it triggers a regeneration
+			packageInfo.Versions[i].Package = versionInfo
 			return packageInfo, err
 		}
 
